@@ -2833,7 +2833,8 @@ func (te *TemplateEngine) processImagePlaceholdersInTable(table *Table, data *Te
 		for cellIdx := range table.Rows[rowIdx].Cells {
 			cell := &table.Rows[rowIdx].Cells[cellIdx]
 			// 处理单元格中的每个段落
-			for paraIdx := range cell.Paragraphs {
+			// 段落列表在循环中可能变长，因此按当前列表的下标遍历，并跳过刚插入的段落
+			for paraIdx := 0; paraIdx < len(cell.Paragraphs); paraIdx++ {
 				para := &cell.Paragraphs[paraIdx]
 				newElements, err := te.processImagePlaceholdersInParagraph(para, data, doc)
 				if err != nil {
@@ -2851,13 +2852,16 @@ func (te *TemplateEngine) processImagePlaceholdersInTable(table *Table, data *Te
 						// 多个元素的情况：替换当前段落为第一个，其余追加
 						newParagraphs := make([]Paragraph, 0, len(cell.Paragraphs)-1+len(newElements))
 						newParagraphs = append(newParagraphs, cell.Paragraphs[:paraIdx]...)
+						inserted := 0
 						for _, elem := range newElements {
 							if p, ok := elem.(*Paragraph); ok {
 								newParagraphs = append(newParagraphs, *p)
+								inserted++
 							}
 						}
 						newParagraphs = append(newParagraphs, cell.Paragraphs[paraIdx+1:]...)
 						cell.Paragraphs = newParagraphs
+						paraIdx += inserted - 1
 					}
 				}
 			}
